@@ -198,6 +198,7 @@ type Entity struct {
 	Manip      *Manip      `json:",omitempty"`
 	// rendering choices
 	PlainScalars bool `json:",omitempty"`
+	RevKeys      bool `json:",omitempty"` // top-level keys in reverse order
 }
 
 // EffAlias is the alias gopki is documented to use.
@@ -251,6 +252,7 @@ type Profile struct {
 	Attrs        []ProfileAttr `json:",omitempty"`
 	Extensions   []Extension   `json:",omitempty"`
 	PlainScalars bool          `json:",omitempty"`
+	RevKeys      bool          `json:",omitempty"` // top-level keys in reverse order
 }
 
 func BoolP(b bool) *bool    { return &b }
